@@ -62,9 +62,11 @@ pub fn eval(job: &Job) -> JobResult {
         "C02" | "C03" => eval_c02_c03(job),
         "C04" => eval_c04(job),
         "C05" => eval_c05(job),
+        "C12" => crate::seqcheck::eval(job),
         "C13" => eval_c13(job),
         "C14" => eval_c14(job),
         "C16" => eval_c16(job),
+        "C19" => eval_c19(job),
         "C15" => eval_c15(job),
         "C07" | "C08" | "C09" | "C10" | "C11" => eval_conf(job),
         other => JobResult { machinery_error: Some(format!("unknown check {}", other)), ..Default::default() },
@@ -981,5 +983,243 @@ fn eval_c16(job: &Job) -> JobResult {
             clean(&dir);
         }
     }
+    res
+}
+
+// ------------------------------------------------------------------------------------------
+// C19: exploration controls and limits
+// ------------------------------------------------------------------------------------------
+
+struct CtlSink {
+    prev: Vec<((u8, u8), bool)>,
+    outcomes: std::collections::BTreeSet<Outcome>,
+    iters: u64,
+    longest: usize,
+    viol: Option<String>,
+}
+
+impl IterSink for CtlSink {
+    fn on_iter(&mut self, it: &IterData) {
+        self.iters += 1;
+        self.longest = self.longest.max(it.path.len());
+        let cur: Vec<((u8, u8), bool)> = it.path.iter().map(|b| (bk(b), b.exploring)).collect();
+        if self.iters > 1 && self.viol.is_none() {
+            match (0..cur.len().min(self.prev.len())).find(|&i| cur[i].0 != self.prev[i].0) {
+                Some(k) => {
+                    if !self.prev[k].1 {
+                        self.viol = Some(format!("iteration {} takes another alternative at depth {} although that decision was taken with exploration disabled ({})", it.index, k, fmt_path(&it.path)));
+                    }
+                }
+                None => self.viol = Some(format!("iteration {} repeats or extends the previous path", it.index)),
+            }
+        }
+        self.prev = cur;
+        if it.complete() {
+            self.outcomes.insert(it.results.clone());
+        }
+    }
+}
+
+fn run_ctl(p: &Program, cfg: &subject::Cfg) -> (subject::RunSummary, CtlSink) {
+    subject::run(p, cfg, CtlSink { prev: vec![], outcomes: Default::default(), iters: 0, longest: 0, viol: None })
+}
+
+/// remove the results at the given (thread, position)s
+fn project(o: &Outcome, drop: &[(usize, usize)]) -> Outcome {
+    o.iter().enumerate().map(|(t, rs)| rs.iter().enumerate().filter(|(i, _)| !drop.contains(&(t, *i))).map(|(_, r)| *r).collect()).collect()
+}
+
+fn eval_c19(job: &Job) -> JobResult {
+    let p = &job.program;
+    let mut res = JobResult::default();
+    let sc = scm::explore(p, scm::Mode::explore(p), SC_MAX_STATES);
+    if sc.truncated || !sc.bad_kinds().is_empty() {
+        res.dont_care = true;
+        return res;
+    }
+    res.states = sc.states;
+    res.transitions = sc.transitions;
+    let cfg = job.cfg.clone();
+    let (sum, full) = run_ctl(p, &cfg);
+    res.loom_iterations = full.iters;
+    res.verdict = sum.verdict.short();
+    if sum.verdict == Verdict::Capped {
+        res.capped = true;
+        return res;
+    }
+    if sum.verdict != Verdict::Ok || full.viol.is_some() {
+        res.violations.push(viol("base_run", sum.verdict.short(), "Ok".into(), full.viol.clone().unwrap_or_default(), json!({})));
+        return res;
+    }
+    let n = full.iters as usize;
+    let b = full.longest;
+    let k = p.threads.len();
+    res.nontrivial = n >= 2;
+    res.ref_outcomes = sc.done.len() as u64;
+    let mut variants = 0u64;
+    let mut push = |res: &mut JobResult, kind: &str, detail: String, expected: &str, observed: String| {
+        if res.violations.len() < 6 {
+            res.violations.push(viol(kind, detail, expected.into(), observed, json!({})));
+        }
+    };
+
+    // (a) control placements
+    for t in 0..k {
+        let (lo, hi) = if t == 0 {
+            let s = p.threads[0].iter().rposition(|o| matches!(o.k, K::Spawn { .. })).map(|x| x + 1).unwrap_or(0);
+            let j = p.threads[0].iter().position(|o| matches!(o.k, K::Join { .. })).unwrap_or(p.threads[0].len());
+            (s, j)
+        } else {
+            (0, p.threads[t].len())
+        };
+        for i in lo..=hi {
+            // stop at i, explore at j (j >= i, positions in the original numbering)
+            for j in i..=hi {
+                let q = crate::families::insert_op(p, t, j, K::Explore.into());
+                let q = crate::families::insert_op(&q, t, i, K::StopExploring.into());
+                let dropped = vec![(t, i), (t, j + 1)];
+                let (s2, r2) = run_ctl(&q, &cfg);
+                variants += 1;
+                res.loom_iterations += r2.iters;
+                let name = format!("T{} stop@{} explore@{}", t, i, j);
+                if s2.verdict != Verdict::Ok {
+                    push(&mut res, "control_verdict", name.clone(), "Ok", s2.verdict.short());
+                    continue;
+                }
+                if let Some(v) = &r2.viol {
+                    push(&mut res, "explored_inside_region", name.clone(), "no alternative is explored for a decision taken with exploration disabled", v.clone());
+                }
+                let proj: std::collections::BTreeSet<Outcome> = r2.outcomes.iter().map(|o| project(o, &dropped)).collect();
+                for o in &proj {
+                    if !full.outcomes.contains(o) || !sc.done.contains(o) {
+                        push(&mut res, "restricted_not_subset", format!("{} {}", name, fmt_outcome(o)), "every execution of the restricted run is an execution of the unrestricted one", "extra outcome".into());
+                    }
+                }
+                if i == j && proj != full.outcomes {
+                    push(&mut res, "outside_region_not_explored", name.clone(), "an empty region restricts nothing", format!("{} of {} outcomes", proj.len(), full.outcomes.len()));
+                }
+                res.traces_validated += r2.iters;
+            }
+            // skip_branch at i
+            {
+                let q = crate::families::insert_op(p, t, i, K::SkipBranch.into());
+                let (s2, r2) = run_ctl(&q, &cfg);
+                variants += 1;
+                res.loom_iterations += r2.iters;
+                let name = format!("T{} skip_branch@{}", t, i);
+                if s2.verdict != Verdict::Ok {
+                    push(&mut res, "control_verdict", name.clone(), "Ok", s2.verdict.short());
+                } else {
+                    if let Some(v) = &r2.viol {
+                        push(&mut res, "explored_inside_region", name.clone(), "no alternative is explored after skip_branch()", v.clone());
+                    }
+                    for o in r2.outcomes.iter().map(|o| project(o, &[(t, i)])) {
+                        if !full.outcomes.contains(&o) {
+                            push(&mut res, "restricted_not_subset", format!("{} {}", name, fmt_outcome(&o)), "subset of the unrestricted result set", "extra outcome".into());
+                        }
+                    }
+                    res.traces_validated += r2.iters;
+                }
+            }
+            // expect_explicit_explore: exploration starts at explore()
+            {
+                let q = crate::families::insert_op(p, t, i, K::Explore.into());
+                let mut c2 = cfg.clone();
+                c2.expect_explicit_explore = true;
+                let (s2, r2) = run_ctl(&q, &c2);
+                variants += 1;
+                res.loom_iterations += r2.iters;
+                let name = format!("T{} explicit explore@{}", t, i);
+                if s2.verdict != Verdict::Ok {
+                    push(&mut res, "control_verdict", name.clone(), "Ok", s2.verdict.short());
+                } else {
+                    if let Some(v) = &r2.viol {
+                        push(&mut res, "explored_inside_region", name.clone(), "nothing is explored before explore() with expect_explicit_explore", v.clone());
+                    }
+                    for o in r2.outcomes.iter().map(|o| project(o, &[(t, i)])) {
+                        if !full.outcomes.contains(&o) {
+                            push(&mut res, "restricted_not_subset", format!("{} {}", name, fmt_outcome(&o)), "subset of the unrestricted result set", "extra outcome".into());
+                        }
+                    }
+                    res.traces_validated += r2.iters;
+                }
+            }
+        }
+    }
+
+    // (b) max_branches around the exact need
+    for (mb, want_ok) in [(b - 1, false), (b, true), (b + 1, true)] {
+        let mut c2 = cfg.clone();
+        c2.max_branches = mb;
+        let (s2, r2) = run_ctl(p, &c2);
+        variants += 1;
+        res.loom_iterations += r2.iters;
+        let ok = if want_ok { s2.verdict == Verdict::Ok && r2.outcomes == full.outcomes } else { s2.verdict == Verdict::BranchLimit };
+        if !ok {
+            push(&mut res, "max_branches", format!("longest path {} max_branches {}", b, mb), if want_ok { "Ok with the full result set" } else { "panic: Model exceeded maximum number of branches" }, format!("{} ({})", s2.verdict.short(), s2.message.lines().next().unwrap_or("")));
+        } else {
+            res.traces_validated += 1;
+        }
+    }
+    // (c) max_threads around the exact need
+    for mt in [k - 1, k, k + 1] {
+        if mt == 0 || mt > 5 {
+            continue;
+        }
+        let mut c2 = cfg.clone();
+        c2.max_threads = mt;
+        let (s2, r2) = run_ctl(p, &c2);
+        variants += 1;
+        res.loom_iterations += r2.iters;
+        let ok = if mt >= k { s2.verdict == Verdict::Ok && r2.outcomes == full.outcomes } else { matches!(s2.verdict, Verdict::LoomInternal(_)) };
+        if !ok {
+            push(&mut res, "max_threads", format!("threads {} max_threads {}", k, mt), if mt >= k { "Ok with the full result set" } else { "a panic (too many threads)" }, format!("{} ({})", s2.verdict.short(), s2.message.lines().next().unwrap_or("")));
+        } else {
+            res.traces_validated += 1;
+        }
+    }
+    // (d) max_permutations x checkpoint interval
+    let mut ms: Vec<usize> = vec![1, 2, n / 2, n.saturating_sub(1), n, n + 1];
+    ms.retain(|m| *m >= 1);
+    ms.sort();
+    ms.dedup();
+    for &m in &ms {
+        for c in [1usize, 2, 3, 5] {
+            let mut c2 = cfg.clone();
+            c2.max_permutations = Some(m);
+            c2.checkpoint_interval = Some(c);
+            let (s2, r2) = run_ctl(p, &c2);
+            variants += 1;
+            res.loom_iterations += r2.iters;
+            let upper = ((m + c - 1) / c) * c; // first checkpoint boundary at or after the limit
+            let lower = n.min(m.saturating_sub(1));
+            let it = r2.iters as usize;
+            let subset = r2.outcomes.iter().all(|o| full.outcomes.contains(o));
+            if s2.verdict != Verdict::Ok || it > upper || it > n || it < lower || !subset || r2.viol.is_some() {
+                push(&mut res, "max_permutations", format!("m={} interval={} N={}", m, c, n), "returns normally after between min(N, m-1) and min(N, first boundary >= m) iterations", format!("{} after {} iterations", s2.verdict.short(), it));
+            } else {
+                res.traces_validated += 1;
+            }
+        }
+    }
+    // (e) max_duration: 0 (stop at the first boundary) and one hour (no effect)
+    for c in [1usize, 3] {
+        for d in [0u64, 3600] {
+            let mut c2 = cfg.clone();
+            c2.max_duration_s = Some(d);
+            c2.checkpoint_interval = Some(c);
+            let (s2, r2) = run_ctl(p, &c2);
+            variants += 1;
+            res.loom_iterations += r2.iters;
+            let it = r2.iters as usize;
+            let ok = s2.verdict == Verdict::Ok && if d == 0 { it <= c.min(n) && it >= n.min(c - 1) } else { it == n && r2.outcomes == full.outcomes };
+            if !ok {
+                push(&mut res, "max_duration", format!("duration={}s interval={} N={}", d, c, n), "0 s ends at the first checkpoint boundary without a failure; 1 h changes nothing", format!("{} after {} iterations", s2.verdict.short(), it));
+            } else {
+                res.traces_validated += 1;
+            }
+        }
+    }
+    res.sample = json!({"program": p.text(), "iterations": n, "longest_path": b, "threads": k, "variants_run": variants, "outcomes": full.outcomes.len()});
     res
 }
